@@ -90,7 +90,11 @@ func (tg c05Target) open() (LockBackend, error) {
 	case c05SQLite:
 		return NewSQLiteBackend(ctx, tg.Path, c05Logger())
 	case c05Dynamo:
-		return NewDynamoDBBackend(ctx, "us-east-1", "verif-locks", tg.Endpoint, c05Logger())
+		b, err := NewDynamoDBBackend(ctx, "us-east-1", "verif-locks", tg.Endpoint, c05Logger())
+		if err == nil && c05DbgHook != nil {
+			c05DbgHook(b)
+		}
+		return b, err
 	case c05ETag:
 		return NewETagBackend(ctx, "auto", "verif-bucket", tg.Endpoint, c05Logger())
 	}
@@ -191,6 +195,8 @@ func c05LogID(id int) (l [sha256.Size]byte) {
 
 const c05Ghost = 99
 
+var c05DbgHook func(*DynamoDBBackend)
+
 type c05Case struct {
 	Kind        string
 	Mode        string // shared | conns | procs
@@ -223,7 +229,7 @@ func (c *c05Case) desc() string {
 		}
 	}
 	for pi, ph := range c.Phases {
-		fmt.Fprintf(&sb, " | phase%d:", pi)
+		fmt.Fprintf(&sb, " | phase%d:", pi+1)
 		for ci, sc := range ph {
 			fmt.Fprintf(&sb, " c%d[", ci)
 			for si, st := range sc {
